@@ -131,9 +131,25 @@ func (c *Context) NewFloat(x *big.Float) *decimal.Decimal {
 }
 
 // NewFloat64 returns a new *decimal.Decimal set to the (possibly rounded) value
-// of x.
-func (c *Context) NewFloat64(x float64) *decimal.Decimal {
-	return c.New().SetFloat64(x)
+// of x. If x is a NaN, the error is recorded in c (see Err) and the value of the
+// result is undefined.
+func (c *Context) NewFloat64(x float64) (r *decimal.Decimal) {
+	r = c.New()
+	if handleNaNs {
+		defer func() {
+			if err := recover(); err != nil {
+				nan, ok := err.(decimal.ErrNaN)
+				if !ok {
+					panic(err)
+				}
+				// x is a NaN: record it unless an earlier error is pending
+				if c.err == nil {
+					c.err = nan
+				}
+			}
+		}()
+	}
+	return r.SetFloat64(x)
 }
 
 // NewRat returns a new *decimal.Decimal set to the (possibly rounded) value of
